@@ -54,7 +54,8 @@ func finish(ev map[string]any) (string, bool) {
 	need := []string{"modules_ok", "modules_failed", "modules_cancelled", "modules_with_library", "attempts", "attempts_demanded_and_rejected",
 		"attempts_rejected_frozen", "immutable_kind_attempts", "module_function_calls", "module_function_rejected_frozen", "unreachable_checks", "unreachable_sink_checks",
 		"unreachable_mutations_accepted", "poke_calls_rejected", "poke_calls_accepted", "host_values_reachable_and_frozen", "shadowing_modules",
-		"predeclared_identity_checks", "reachable_containers_on_error_path", "frozen_flag_checks"}
+		"predeclared_identity_checks", "reachable_containers_on_error_path", "frozen_flag_checks",
+		"modules_deriving_from_frozen_lib", "modules_deriving_from_frozen_host-frozen"}
 	for _, k := range need {
 		if counters[k] == 0 {
 			return "counter " + k + " is zero: the monitor did not observe what it needs", true
@@ -75,6 +76,7 @@ type hostEnv struct {
 	pre    starlark.StringDict
 	labels map[string]starlark.Value // path label -> host container
 	sunk   []sunkRec
+	frozen []root // values the host froze itself before execution
 }
 
 func ints(xs ...int) []starlark.Value {
@@ -116,7 +118,22 @@ func newHostEnv() *hostEnv {
 		"hostA": hostA, "hostB": hostB, "hostB[0]": b0, "hostB[1]": b1, "hostC": hostC, `hostC["k"]`: ck, "hostD": hostD,
 		"hostE.items": eItems, "hostF[0]": f0, "hostF[1]": f1, "hostM.lst": mLst, "hostG": hostG, "hostH": hostH, "hostR": hostR, "hostshadow": hostshadow,
 	}
+	// values frozen by the host before the module runs (as if produced by an earlier module)
+	frozL := starlark.NewList([]starlark.Value{starlark.NewList(ints(1)), starlark.MakeInt(2)})
+	frozT := starlark.Tuple{starlark.NewList(ints(1)), starlark.String("t")}
+	frozD := starlark.NewDict(2)
+	frozD.SetKey(starlark.String("k"), starlark.NewList(ints(1)))
+	frozD.SetKey(starlark.String("n"), starlark.MakeInt(2))
+	frozS := starlark.NewSet(2)
+	frozS.Insert(starlark.MakeInt(1))
+	frozS.Insert(starlark.Tuple{starlark.MakeInt(2), starlark.String("x")})
+	frozE := starlarkstruct.FromStringDict(starlarkstruct.Default, starlark.StringDict{"name": starlark.String("base"), "base_items": starlark.NewList(ints(1))})
+	h.frozen = []root{{"frozL", frozL}, {"frozT", frozT}, {"frozD", frozD}, {"frozS", frozS}, {"frozE", frozE}}
+	for _, f := range h.frozen {
+		f.v.Freeze()
+	}
 	h.pre = starlark.StringDict{
+		"frozL": frozL, "frozT": frozT, "frozD": frozD, "frozS": frozS, "frozE": frozE,
 		"hostA": hostA, "hostB": hostB, "hostC": hostC, "hostD": hostD, "hostE": hostE, "hostF": hostF, "hostM": hostM,
 		"hostG": hostG, "hostH": hostH, "hostbm": hostbm, "hostshadow": hostshadow,
 		"struct": starlark.NewBuiltin("struct", starlarkstruct.Make),
@@ -350,6 +367,9 @@ func (m *monitor) runModule() {
 		if strings.HasPrefix(f, "shadow-") {
 			c.Count("shadowing_modules", 1)
 		}
+		if strings.HasPrefix(f, "derive-source:") {
+			c.Count("modules_deriving_from_frozen_"+strings.TrimPrefix(f, "derive-source:"), 1)
+		}
 	}
 
 	// ---- predeclared / universe unchanged
@@ -470,7 +490,16 @@ func (m *monitor) runModule() {
 		}
 		ks := minus(all, works)
 		if len(ks) == 0 {
-			ks = all // every kind on the path works somewhere in this module (partial breakage)
+			// every kind on the path works somewhere in this module (partial breakage). The freeze of
+			// a module's globals visits every global alike, so the global hop is the least suspect.
+			for _, k := range all {
+				if !strings.HasPrefix(k, eGlobal+"@") {
+					ks = append(ks, k)
+				}
+			}
+			if len(ks) == 0 {
+				ks = all
+			}
 		}
 		if len(ks) > 1 {
 			ever := map[string]bool{}
@@ -651,8 +680,13 @@ func (m *monitor) runModule() {
 		}
 	}
 	H := reach(hroots, "")
+	preFrozen := reach(env.frozen, "") // frozen by the host itself: not evidence of anything
 	for i, nd := range H.nodes {
 		if !isContainer(nd.v) || R.has(nd.v) {
+			continue
+		}
+		if preFrozen.has(nd.v) {
+			c.Count("host_frozen_values_skipped", 1)
 			continue
 		}
 		j := i
